@@ -73,9 +73,14 @@ def plan(tier):
         for i, text in enumerate(split(wide, 4 if t else 3)):
             units.append(dict(name='%s-exp2w%d' % (comp, i), src='C20.cpp', compiler=comp, mode='ndebug',
                               defines=['VF_TIER=%d' % t], gen={'programs.inc': text}, shards=16 if t else 8))
-        for i, text in enumerate(split(klines, 6 if t else 2)):
-            units.append(dict(name='%s-const%d' % (comp, i), src='C20.cpp', compiler=comp, mode='ndebug', opt='-O0',
-                              defines=['VF_TIER=%d' % t], gen={'programs.inc': text}, shards=1))
+        # one unit per representation (thorough: and per half of the constants): an instantiation whose constant
+        # initialiser is not a constant expression any more (overflow in the series fallback) is a hard compile
+        # error that cannot be probed with SFINAE; it then takes down only its own unit and the others still decide
+        for rep in BITS:
+            rl = ['K(%s, %s, %d)' % c for c in cc if c[1] == rep]
+            for i, text in enumerate(split(rl, 2 if t else 1)):
+                units.append(dict(name='%s-const-%s-%d' % (comp, rep, i), src='C20.cpp', compiler=comp, mode='ndebug', opt='-O0',
+                                  defines=['VF_TIER=%d' % t], gen={'programs.inc': text}, shards=1))
     if t:
         # CNL_DEBUG build of the narrow exp2 programs (assertions in shifts/conversions active)
         for i, text in enumerate(split(narrow, 4)):
